@@ -281,6 +281,7 @@ async fn conn_task(host: String, mut s: TcpStream) {
     // ---- main loop ----
     let mut framer = Framer { pg_frontend_rules: true, ..Default::default() };
     let mut unit_open = false;
+    let mut pending_out: Vec<u8> = Vec::new();
     let how: &str;
     'main: loop {
         let m = match read_msg(&mut s, &mut framer, &mut kill_rx).await {
@@ -444,7 +445,9 @@ async fn conn_task(host: String, mut s: TcpStream) {
         if let Some((k, rst)) = close_after {
             world::fault("server_close_mid_reply");
             let k = k.min(bytes.len());
-            let _ = s.write_all(&bytes[..k]).await;
+            let mut out = std::mem::take(&mut pending_out);
+            out.extend_from_slice(&bytes[..k]);
+            let _ = s.write_all(&out).await;
             {
                 let mut h = HIST.lock();
                 if let Some(u) = h.backend_conns[conn_idx].units.last_mut() {
@@ -458,16 +461,25 @@ async fn conn_task(host: String, mut s: TcpStream) {
             break;
         }
         if !bytes.is_empty() {
-            if s.write_all(&bytes).await.is_err() {
+            {
+                let mut h = HIST.lock();
+                if let Some(u) = h.backend_conns[conn_idx].units.last_mut() {
+                    u.out_bytes.extend_from_slice(&bytes);
+                    if let Some(st) = rfq {
+                        u.rfq = st;
+                    }
+                }
+            }
+            pending_out.extend_from_slice(&bytes);
+        }
+        // PostgreSQL keeps the replies to Parse/Bind/Describe/Execute/Close in its output buffer
+        // until Sync or Flush (or until the 8 kB buffer is full, or it has to wait for COPY data)
+        let hold = matches!(m.ty, b'P' | b'B' | b'D' | b'E' | b'C') && pending_out.len() < 8192 && sess.copy_in.is_none() && !outcome.close;
+        if !hold && !pending_out.is_empty() {
+            let out = std::mem::take(&mut pending_out);
+            if s.write_all(&out).await.is_err() {
                 how = "reset";
                 break;
-            }
-            let mut h = HIST.lock();
-            if let Some(u) = h.backend_conns[conn_idx].units.last_mut() {
-                u.out_bytes.extend_from_slice(&bytes);
-                if let Some(st) = rfq {
-                    u.rfq = st;
-                }
             }
         }
         if rfq.is_some() {
